@@ -1,5 +1,30 @@
 import Bng.Drv.Common
+import Bng.Drv.XdpDhcp
+import Bng.Drv.Decoders
+import Bng.Drv.Coa
+import Bng.Drv.Acct
+import Bng.Drv.TokenBucket
+import Bng.Drv.Antispoof
+import Bng.Drv.HaSync
+import Bng.Drv.Failover
+import Bng.Drv.Dhcp4
+import Bng.Drv.Dhcp6
 import Bng.Drv.Bitmap
+import Bng.Drv.PppoeServer
+import Bng.Drv.Teardown
+import Bng.Drv.SubMgr
+import Bng.Drv.FreeList
+import Bng.Drv.Nexus
+import Bng.Drv.Epoch
+import Bng.Drv.Dist
+import Bng.Drv.Nat
+import Bng.Drv.Nat44
+import Bng.Drv.Vlan
+import Bng.Drv.Qinq
+import Bng.Drv.PppSess
+import Bng.Drv.CircuitKey
+import Bng.Drv.Index
+import Bng.Drv.Rendezvous
 /-
   bngdrv <component> < trace
   Replays implementation traces on the Lean models and evaluates the property monitors.
@@ -7,7 +32,36 @@ import Bng.Drv.Bitmap
 open Bng.Drv
 
 def components : List (String × Component) := [
-  ("bitmap", BitmapDrv.component)
+  ("xdpdhcp", XdpDhcpDrv.component),
+  ("decoders", DecodersDrv.component),
+  ("coa", CoaDrv.component),
+  ("acct", AcctDrv.component),
+  ("qos", TokenBucketDrv.component),
+  ("antispoof", AntispoofDrv.component),
+  ("hasync", HaSyncDrv.component),
+  ("failover", FailoverDrv.component),
+  ("dhcp4", Dhcp4Drv.component),
+  ("dhcp6", Dhcp6Drv.component),
+  ("bitmap", BitmapDrv.component),
+  ("pppoesrv", PppoeServerDrv.component),
+  ("teardown", TeardownDrv.component),
+  ("submgr", SubMgrDrv.component),
+  ("dhcppool", FreeListDrv.component .dhcp),
+  ("v6addr", FreeListDrv.component .v6addr),
+  ("v6prefix", FreeListDrv.component .v6prefix),
+  ("pppoepool", FreeListDrv.component .pppoe),
+  ("localpool", FreeListDrv.component .localp),
+  ("nexushash", NexusDrv.component),
+  ("nat", NatDrv.component),
+  ("rendezvous", RendezvousDrv.component),
+  ("nat44", Nat44Drv.component),
+  ("epoch", EpochDrv.component),
+  ("dist", DistDrv.component),
+  ("vlan", VlanDrv.component),
+  ("qinq", QinqDrv.component),
+  ("pppsess", PppSessDrv.component),
+  ("circuitkey", CircuitKeyDrv.component),
+  ("index", IndexDrv.component)
 ]
 
 def main (args : List String) : IO UInt32 := do
